@@ -4,7 +4,8 @@
    with permissive_mode = false; conforms / retains / c04_ok = the independent oracle of C04/Spec_C04.v. *)
 From Coq Require Import NArith ZArith List Bool.
 From F8 Require Import Codec.Bytes Codec.Meta Codec.Extract Codec.Decode Codec.Example
-                       C04.Spec_C04 C04.Strict C04.Tokens C04.Example04 C04.Sound C04.WitnessProofs C04.SoundProofs.
+                       C04.Spec_C04 C04.Strict C04.Tokens C04.Example04 C04.Sound C04.Exact C04.WitnessProofs C04.SoundProofs
+                       C04.ExactProofs.
 Import ListNotations.
 Local Open Scope N_scope.
 
@@ -47,6 +48,25 @@ Theorem c04_retains_refuted :
    conforms ex4_ctx (ser toks_c) = false).
 Proof. exact c04_retains_refuted_lemma. Qed.
 Print Assumptions c04_retains_refuted.
+
+(* Exactness on token sequences, under explicit boolean hypotheses (C04/Exact.v: exact_hyps = the list is
+   framed 8, 9, 35 ... 10=ddd; every tag < 65536; values without SOH / NUL and within the buffers;
+   int-typed texts are plain digits; no Length-typed field other than BodyLength; 8 / 9 / 35 / 10 do
+   not occur again) and provided every tag is legal AT ITS POSITION (struct_verdict <> VIllegal):
+   the model of Message::factory accepts ser toks if and only if ser toks conforms, it never ends in
+   a memory error or a hang, and it rejects by throwing.
+   The remaining hypothesis "<> Fuel" says that the model's recursion fuel was not exhausted (a model
+   artefact; c04_fuel_enough below discharges it). *)
+Theorem c04_exact_partial : forall c toks,
+  wf_ctx c = true -> exact_hyps c toks = true -> struct_verdict c toks <> VIllegal ->
+  strict_factory c (ser toks) <> Fuel ->
+  match strict_factory c (ser toks) with
+  | Ok m => conforms c (ser toks) = true
+  | Exc _ => conforms c (ser toks) = false
+  | _ => False
+  end.
+Proof. exact exact_accept_lemma. Qed.
+Print Assumptions c04_exact_partial.
 
 (* Non-vacuity: a NewOrderList with two orders, the second carrying two nested allocations,
    conforms, is accepted by the model, and every token is retained. *)
